@@ -156,8 +156,8 @@ func (h *H) held(rounds int) {
 	for round := 0; round < rounds; round++ {
 		sid := uint16(1 + rng.Intn(60000))
 		for _, validate := range []bool{false, true} {
-			cfgP := Cfg{Active: false, Sid: sid, Validate: validate, Equip: round%2 == 0}
-			cfgA := Cfg{Active: true, Sid: sid, Validate: validate, Equip: round%2 == 1}
+			cfgP := Cfg{Active: false, Sid: sid, Validate: validate, Equip: round%2 == 0, Trace: validate != (round%2 == 0)}
+			cfgA := Cfg{Active: true, Sid: sid, Validate: validate, Equip: round%2 == 1, Trace: validate == (round%2 == 0)}
 			sel := selectReq(sid, 0x1001)
 			d1 := dataFrame(sid, 1, 1, true, 0x2001, []byte{0x01, 0x00})
 			d2 := dataFrame(sid, 6, 11, false, 0x2002, nil)
